@@ -634,6 +634,28 @@ func (s *backendSuite) do(t []string) string {
 		s.c.mu.Unlock()
 		klog.SetLogFilter(logGate{c: s.c})
 		return "logarm ok"
+	case "reopen":
+		// reopen: the node process is restarted over the same data. Badger: the store is CLOSED (its memtable is flushed into
+		// an sst table) and opened again from its directory; the other engines keep their (in-process) store. A new backend
+		// takes over at the revision the old one had committed. (Scripts without watches and parked clients only.)
+		rev := s.b.GetCurrentRevision()
+		name := strings.TrimPrefix(s.opts["engine"], "metrics-")
+		if name == "badger" {
+			if err := s.inner.Close(); err != nil {
+				return "reopen err close"
+			}
+			o2 := map[string]string{}
+			for k, v := range s.opts {
+				o2[k] = v
+			}
+			o2["badgerdir"] = lastBadgerDir
+			below := strings.HasPrefix(s.opts["engine"], "metrics-")
+			s.inner = newEngineUnder(o2, func(kv storage.KvStorage) storage.KvStorage { return &delFaultStore{KvStorage: kv, c: s.c} })
+			s.kv = &kvWrap{inner: s.inner, c: s.c, delBelow: below}
+		}
+		s.b = s.newBackend("id-reopen-" + fmt.Sprint(time.Now().UnixNano()))
+		s.b.SetCurrentRevision(rev)
+		return "reopen ok"
 	case "commitdelay":
 		s.c.mu.Lock()
 		s.c.commitDelay = time.Duration(atoi(pos[1])) * time.Millisecond
